@@ -57,6 +57,7 @@ class State:
         self.last_emplaced = {}
         self.contents = {}        # container term -> list of element objects known to be stored there
         self.symstore = {}        # writes through symbolic lvalues: ('fld', base, name) -> value
+        self.derefs = []          # (pointer term, line, number of path conditions when dereferenced)
 
     def fork(self):
         s = State()
@@ -70,6 +71,7 @@ class State:
         s.last_emplaced = dict(self.last_emplaced)
         s.contents = {k: list(v) for k, v in self.contents.items()}
         s.symstore = dict(self.symstore)
+        s.derefs = list(self.derefs)
         return s
 
     def new_obj(self, cls, origin=None):
@@ -124,7 +126,7 @@ class Sym:
             raise Unsupported(f'inlining depth exceeded at {f["id"]}')
         self.depth += 1
         try:
-            env = {}
+            env = {'__fn__': f['id']}
             for i, a in enumerate(args):
                 env[('p', i)] = a
             if this is not None:
@@ -537,9 +539,15 @@ class Sym:
                 out.append((s, None))
                 continue
             if e.get('arrow'):
+                self.note_deref(s, b, e)
                 b = self.simp(('deref', b))
             out.append((s, self.load_field(s, b, e['name'])))
         return out
+
+    def note_deref(self, st, ptr, e):
+        if isinstance(ptr, tuple) and ptr and ptr[0] in ('addr', 'obj'):
+            return
+        st.derefs.append((ptr, e.get('ln'), len(st.conds), st.envs[-1].get('__fn__')))
 
     def ev_cast(self, e, st):
         ck = e.get('ck')
@@ -566,6 +574,7 @@ class Sym:
                 out.append((s, None))
                 continue
             if op == '*':
+                self.note_deref(s, v, e)
                 out.append((s, self.simp(('deref', v))))
             elif op == '&':
                 out.append((s, self.simp(('addr', v))))
@@ -824,6 +833,7 @@ class Sym:
             if has_obj:
                 recv, args = vals[0], vals[1:]
                 if e.get('arrow'):
+                    self.note_deref(s, recv, e)
                     recv = self.simp(('deref', recv))
             out.extend(self.dispatch(e, callee, recv, args, s))
         return out
